@@ -61,6 +61,7 @@ static void family(rng& g, bool thorough, bool dists)
         c.cfg.kind = "vegas";
         c.dists = dists;
         c.plan = make_plan(g, 89);
+        c.reload = gi == 1;
         run_vegas<T>(c, make_engine(g, 211), pdf, iters, T(1.5));   // later iterations use adapted grids
     }
     // a valid, extremely non-uniform grid in eight dimensions: points whose weight underflows to zero are still handed to the integrand
